@@ -18,6 +18,9 @@ CLAIMED = {
     "C10": ("exploration", "contracts on the real classes: unbounded VCs (pyvc/z3) for the simulated clock; bounded symbolic execution for the event heap (representation invariant, verbatim heapq port), the real SimulatorBackend driven by a harness, and the tabular lookup (mini-numpy)",
             "SimulatedTimeKeeper proved for all values (time never backwards, waiting charged once). Bounded stand-in for the rest: SimulatorState push/next_until/remove_events keep the binary-heap invariant and return events in (time, counter) order for heaps of <= 5 entries; the real SimulatorBackend delivers exactly the scripted table rows with time stamp start + delay_start + elapsed + delay_on_trial_result, in order, exactly once, nothing after stop/pause, for all delays / elapsed times / sleep times (2 trials, <= 3 polls); BlackboxTabular index lookup returns the block of the requested seed.",
             "A-REAL; time.time monotone; bounded scenario sizes; the tabular back end's pandas look-up, elapsed-time repair and per-trial seed bookkeeping are not covered; pyvc encoding, heapq port and mini-numpy trusted.", "5/C10"),
+    "C01": ("exploration", "contracts on the real Tuner methods against abstract scheduler / back end / callbacks with interface contracts and ghost protocol state; call-site protocol preconditions and postconditions decided by bounded symbolic execution (pyvc) and z3; counter-models replayed natively with scripted stubs",
+            "Bounded stand-in (<= 2 trials, <= 3 results per poll, n_workers <= 2; all ids, statuses, decisions symbolic): every call of the scheduler / back end in Tuner._update_running_trials, _schedule_new_task and _schedule_new_tasks satisfies the life-cycle protocol (start -> results -> exactly one end; stop/pause only of running trials; resume only of paused ones; ids in sequence; worker budget; started trials are polled). The simulator back-end half is in C10's scenario.",
+            "Interface contracts of the abstract collaborators are assumed (contracts/iface.py); the tuning loop Tuner.run itself and concrete schedulers' resume discipline are covered only as far as C04/C05/C12 go; real worker processes out of reach.", "5/C01"),
     "C04": ("proof", "contract-based deductive verification: VCs generated from the real AST (pyvc) with loop invariants and modular callee contracts, discharged by z3/cvc5; bounded-shape stand-in for the cost-aware variant and for witnesses",
             "Unbounded verification conditions (rung contents of any length, 0..3 rungs) for PromotionRungSystem (find/mark/schedule/add/report/remove) and PASHA's resource cap in on_task_schedule, from /repo's source on every run; cost-aware eligibility bounded (<=4 entries).",
             "A-REAL; SortedList contract trusted; number of rungs concrete in proof units; cost values non-negative; PASHA ranking/epsilon logic and DyHPO not covered; pyvc encoding and SMT solvers trusted.", "5/C04"),
